@@ -23,7 +23,7 @@ def sig_of(kind, i):
 class UMethod:
     params: List[str]
     form: str            # "path" | "params" | "none"
-    receiver: str = "ref"    # ref | mut
+    receiver: str = "ref"    # ref | mut | pin
     asyncness: str = "sync"  # sync | async_fn
     reenter: bool = False    # the real function calls `helper(x)` back on its dependency
 
@@ -34,10 +34,11 @@ class UShape:
     skipped_at: List[int] = field(default_factory=list)   # positions (in the fn list) of skipped associated fns
     api: str = "module"      # module | hidden
     depth: int = 0
+    provided: bool = False   # the trait also has a provided method (with a `_` entry in unmock_with)
 
     def key(self):
         return json.dumps([[m.params, m.form, m.receiver, m.asyncness, m.reenter] for m in self.methods]
-                          + [self.skipped_at, self.api, self.depth])
+                          + [self.skipped_at, self.api, self.depth, self.provided])
 
 
 def render_unmock(s: UShape, idx: int):
@@ -61,7 +62,7 @@ def render_unmock(s: UShape, idx: int):
         names.append(name)
         kinds = [KINDS[p] for p in m.params]
         params = ", ".join(f"p{i}: {sig_of(p, i)}" for i, p in enumerate(m.params))
-        recv = "&self" if m.receiver == "ref" else "&mut self"
+        recv = {"ref": "&self", "mut": "&mut self", "pin": "self: std::pin::Pin<&mut Self>"}[m.receiver]
         asy = "async " if m.asyncness == "async_fn" else ""
         trait_items.append(f"    {asy}fn {name}({recv}{', ' if params else ''}{params}) -> u32;")
         # real function
@@ -92,6 +93,9 @@ def render_unmock(s: UShape, idx: int):
     # helper: a plain mocked method the real functions call back into
     trait_items.append("    fn helper(&self, x: u32) -> u32;")
     fn_list.append("_")
+    if s.provided:
+        trait_items.append("    fn provided_extra(&self, x: u32) -> u32 { x + 1 }")
+        fn_list.append("_")
     api = "api=M, " if s.api == "module" else ""
     text = [f"// unmock shape {idx}: {s.key()}", "use super::support::*;", "use unimock::*;", "",
             f"#[unimock({api}unmock_with=[{', '.join(fn_list)}])]", "pub trait Tr {"] + trait_items + ["}", ""] + real_fns
@@ -121,10 +125,10 @@ def render_unmock(s: UShape, idx: int):
                     mk = f"Unimock::new(({clause}, {helper_clause}))"
                 else:
                     mk = f"Unimock::new({clause})"
-            call = f"u.{name}({args})"
+            call = f"u.{name}({args})" if m.receiver != "pin" else f"std::pin::Pin::new(&mut u).{name}({args})"
             if m.asyncness == "async_fn":
                 call = f"block_on({call}).0"
-            mut = "mut " if m.receiver == "mut" else ""
+            mut = "mut " if m.receiver in ("mut", "pin") else ""
             drivers.append(f"""
     {{
         {decls}
@@ -217,20 +221,23 @@ def unmock_shapes(rng: random.Random, n):
             methods.append(UMethod(
                 params=[rng.choice(SIMPLE) for _ in range(arity)],
                 form=rng.choice(["path", "path", "params", "none"]),
-                receiver=rng.choice(["ref", "ref", "ref", "mut"]),
+                receiver=rng.choice(["ref", "ref", "ref", "mut", "pin"]),
                 asyncness=rng.choice(["sync", "sync", "sync", "async_fn"]),
                 reenter=rng.random() < 0.3,
             ))
         skipped = sorted(rng.sample(range(k + 1), rng.choice([0, 0, 1, 1, 2]) if k + 1 >= 2 else 0))
         # positions are in the final fn list: remap so that they interleave with methods
-        s = UShape(methods, skipped_at=skipped, api=rng.choice(["module", "module", "hidden"]))
+        s = UShape(methods, skipped_at=skipped, api=rng.choice(["module", "module", "hidden"]),
+                   provided=rng.random() < 0.4)
         for m in s.methods:
             if m.asyncness == "async_fn" and any(KINDS[p].name in ("mut_u32", "mut_vec") for p in m.params):
                 m.asyncness = "sync"
             if m.form == "none":
                 m.reenter = False
-            if m.receiver == "mut":
+            if m.receiver in ("mut", "pin"):
                 m.reenter = False
+            if m.receiver == "pin":
+                m.asyncness = "sync"
         if s.key() in seen:
             continue
         seen.add(s.key())
@@ -253,10 +260,12 @@ class DShape:
     borrowed_first: bool = False  # a `&self` provided method is delegated before the main call
     direct_calls: int = 0      # direct calls of req0 mixed in
     unmet: bool = False        # an extra clause that is never used (by-value: verification must fail inside)
+    nested: bool = False       # the answer of req0 itself calls a provided method on the mock it receives
+    assoc_const: bool = False  # the body reads an associated const that has a default and is overridden in the attribute
 
     def key(self):
         return json.dumps([self.receiver, self.params, self.body_calls, self.route, self.partial, self.sole_owner,
-                           self.borrowed_first, self.direct_calls, self.unmet])
+                           self.borrowed_first, self.direct_calls, self.unmet, self.nested, self.assoc_const])
 
 
 def d_supported(s: DShape):
@@ -283,10 +292,14 @@ def render_default(s: DShape, idx: int):
     where = " where Self: Sized" if s.receiver in ("owned", "box", "rc", "arc") else ""
     for n, j in enumerate(s.body_calls):
         body.append(f"        acc = acc.wrapping_mul(31).wrapping_add(self.req{j}({20 + n}));")
+    if s.assoc_const:
+        body.append("        acc = acc.wrapping_add(Self::K);")
     body.append("        acc")
-    trait = f"""#[unimock(api=M)]
+    const_attr = ", const K: u32 = 15;" if s.assoc_const else ""
+    const_item = "    const K: u32 = 5;\n" if s.assoc_const else ""
+    trait = f"""#[unimock(api=M{const_attr})]
 pub trait Tr {{
-    fn req0(&self, x: u32) -> u32;
+{const_item}    fn req0(&self, x: u32) -> u32;
     fn req1(&self, x: u32) -> u32;
     fn req2(&self, x: u32) -> u32;
     fn never(&self) -> u32;
@@ -296,10 +309,16 @@ pub trait Tr {{
     fn prov_ref(&self, x: u32) -> u32 {{
         self.req0(x) + 1
     }}
+    fn prov_leaf(&self, x: u32) -> u32 {{
+        x + 7
+    }}
 }}
 """
-    # python evaluation of the body: reqj(x) answers x * 3 + j
+    # python evaluation of the body: reqj(x) answers x * 3 + j; with `nested`, req0 first sends x through the
+    # provided method prov_leaf (x + 7) called on the mock instance its answer function receives
     def req(j, x):
+        if j == 0 and s.nested:
+            return (x + 7) * 3
         return x * 3 + j
     acc = 9
     req_counts = [0, 0, 0]
@@ -307,6 +326,8 @@ pub trait Tr {{
     for n, j in enumerate(s.body_calls):
         acc = (acc * 31 + req(j, 20 + n)) & 0xFFFFFFFF
         req_counts[j] += 1
+    if s.assoc_const:
+        acc = (acc + 15) & 0xFFFFFFFF
     if s.borrowed_first:
         req_counts[0] += 1
     req_counts[0] += s.direct_calls
@@ -336,6 +357,9 @@ pub trait Tr {{
     if len(clauses) == 1:
         clause_text = clauses[0]
     clause_text = clause_text.replace("IDX", str(idx))
+    if s.nested:
+        clause_text = clause_text.replace("x * 3 + 0 }", "u.prov_leaf(x) * 3 }").replace("x * 3 })", "u.prov_leaf(x) * 3 })")
+        clause_text = clause_text.replace('.answers(&|_, x| { ev(%d, "req0"' % idx, '.answers(&|u, x| { ev(%d, "req0"' % idx)
     mk = f"Unimock::new_partial({clause_text})" if s.partial else f"Unimock::new({clause_text})"
 
     decls = " ".join(k.decl.replace("{i}", str(i)).replace("{v}", str(value_of(i))) for i, k in enumerate(kinds))
@@ -397,7 +421,7 @@ pub fn run() {{
         "req_args": [[f"req{j}", str(20 + n)] for n, j in enumerate(s.body_calls)],
         "by_value": by_value, "unmet": s.unmet,
         "borrowed_first": s.borrowed_first, "direct_calls": s.direct_calls,
-        "sole_owner": s.sole_owner, "receiver": s.receiver,
+        "sole_owner": s.sole_owner, "receiver": s.receiver, "nested": s.nested,
     }
     return text, exp
 
@@ -410,7 +434,7 @@ def check_default(exp, events):
     if "driver_panic" in by:
         return f"driver panicked: {by['driver_panic'][0]['p']}"
     if exp["borrowed_first"]:
-        if "borrowed_first" not in by or by["borrowed_first"][0]["p"][0] != str(77 * 3 + 1):
+        if "borrowed_first" not in by or by["borrowed_first"][0]["p"][0] != str((84 if exp.get("nested") else 77) * 3 + 1):
             return f"the preliminary borrowed delegation returned {by.get('borrowed_first')}"
     if "caller_before" not in by:
         return f"scenario did not reach the main call (events {kinds})"
@@ -471,6 +495,8 @@ def default_shapes(rng: random.Random, n):
             borrowed_first=rng.random() < 0.35,
             direct_calls=rng.choice([0, 0, 1, 2]),
             unmet=rng.random() < 0.15,
+            nested=rng.random() < 0.3,
+            assoc_const=rng.random() < 0.3,
         )
         if s.receiver not in ("rc", "arc"):
             s.sole_owner = True
